@@ -68,6 +68,9 @@ func computedFields(p *core.Program) map[string]map[string]bool {
 			if !isExportedName(short) || isExportedName(core.FieldName(fa)) {
 				return
 			}
+			if p.Method(short, "Generate") == nil {
+				return // only recipes (Generator implementations) have derived state
+			}
 			// stores into a heap object allocated here (constructor / composite literal) do not make the field "computed"
 			if al, ok := fa.X.(*ssa.Alloc); ok && al.Heap {
 				return
